@@ -44,6 +44,9 @@ Fixpoint u2c_go (t : text) (index : N) (idx ci : N) : N :=
 
 Definition utf8_to_char_index (t : text) (index : N) : N := u2c_go t index 0 0.
 
+(** CharSpan::from (oal-model/src/span.rs): the character span the CLI and the playground show for a byte span *)
+Definition char_span (t : text) (s e : N) : N * N := (utf8_to_char_index t s, utf8_to_char_index t e).
+
 (** ------------------------------------------------------------------ *)
 (** Independent reference: what the LSP specification says a position
     means. Lines are separated by LF; a CR directly before the separator
